@@ -310,8 +310,11 @@ C07_StorageContract == Acting => evt.rk # "storerr"
 -----------------------------------------------------------------------------
 (* C08  ReadIndex (Safe) linearizability                                     *)
 
+(* C08 speaks about ReadOnlyOption::Safe; executions in which some node runs lease-based reads are exempt *)
+AnyLeaseRead == \E j \in DOMAIN cfg : "lease_read" \in DOMAIN cfg[j] /\ cfg[j].lease_read
+
 C08_ReadLinearizable ==
-    (IsRdEvent /\ evt.ev = "Ready") =>
+    (IsRdEvent /\ evt.ev = "Ready" /\ ~AnyLeaseRead) =>
         \A x \in DOMAIN evt.rd.readStates :
             LET rs == evt.rd.readStates[x]
                 S == {y \in DOMAIN gh.reads : gh.reads[y].ctx = rs.ctx}
@@ -322,7 +325,7 @@ C08_ReadLinearizable ==
    carried it (or a later read); a request that is answered at once needs the leader alone to be a quorum *)
 PendingCtxs(n) == DOMAIN n.ro.pending
 C08_AnswerNeedsQuorum ==
-    (SameInc /\ P.role = "L" /\ Q.role = "L" /\ P.term = Q.term) =>
+    (SameInc /\ P.role = "L" /\ Q.role = "L" /\ P.term = Q.term /\ ~AnyLeaseRead) =>
         LET answered == PendingCtxs(P) \ PendingCtxs(Q)
             newAck == IF evt.ev = "Deliver" /\ M.ty = "HBResp" THEN {M.from}
                       ELSE IF evt.ev \in {"Apply", "Advance"} THEN {an} ELSE {}
